@@ -351,3 +351,55 @@ func init() {
 	replayDrivers["grpchan.(*interceptedChannel).Invoke"] = drv
 	replayDrivers["grpchan.unwrap"] = drv
 }
+
+const invokePeerDriver = `package httpgrpc
+
+import (
+	"bytes"
+	"context"
+	"crypto/tls"
+	"io/ioutil"
+	"net/http"
+	"net/url"
+	"testing"
+
+	"google.golang.org/grpc"
+	"google.golang.org/grpc/credentials"
+	"google.golang.org/grpc/peer"
+	"google.golang.org/protobuf/types/known/emptypb"
+)
+
+type zzTLSRT struct{}
+
+func (zzTLSRT) RoundTrip(req *http.Request) (*http.Response, error) {
+	// what net/http's Transport does for an https URL: the RESPONSE carries the TLS state
+	return &http.Response{StatusCode: 200, Status: "200 OK", Header: http.Header{}, Body: ioutil.NopCloser(bytes.NewReader(nil)), Request: req,
+		TLS: &tls.ConnectionState{HandshakeComplete: true, ServerName: "example.invalid"}}, nil
+}
+
+func TestZZGovcReplay(t *testing.T) {
+	u, _ := url.Parse("https://example.invalid/")
+	ch := &Channel{Transport: zzTLSRT{}, BaseURL: u}
+	var p peer.Peer
+	err := ch.Invoke(context.Background(), "/svc/M", &emptypb.Empty{}, &emptypb.Empty{}, grpc.Peer(&p))
+	if err != nil {
+		t.Fatalf("Invoke: %v", err)
+	}
+	ti, ok := p.AuthInfo.(credentials.TLSInfo)
+	if !ok || !ti.State.HandshakeComplete {
+		t.Fatalf("GOVC-REPLAY: VIOLATED unary call over https: peer call option reports AuthInfo=%v, want the TLS info of the connection (addr=%v)", p.AuthInfo, p.Addr)
+	}
+}
+`
+
+func init() {
+	replayDrivers["httpgrpc.(*Channel).Invoke"] = func(cc *checkCtx, rec *obRecord, f *Failure) map[string]interface{} {
+		res := map[string]interface{}{"attempted": false}
+		if !strings.Contains(rec.o.Name, "peer_reports_the_connection_tls_state") {
+			res["reason"] = "no replay scenario for this obligation"
+			return res
+		}
+		res["inputs"] = map[string]interface{}{"scenario": "https base URL, RoundTripper whose response carries a TLS state, grpc.Peer call option"}
+		return runDriver(cc, modulePath+"/httpgrpc", invokePeerDriver, res)
+	}
+}
